@@ -14,6 +14,10 @@ import (
 // Prelude: exact-Z helper functions (DESIGN.md Appendix A).
 const Prelude = `
 (set-option :print-success false)
+(declare-fun umul (Int Int) Int)
+(declare-fun utdiv (Int Int) Int)
+(declare-fun udiv (Int Int) Int)
+(declare-fun umod (Int Int) Int)
 (define-fun tdiv ((a Int) (b Int)) Int
   (ite (>= a 0) (ite (> b 0) (div a b) (- (div a (- b))))
                 (ite (> b 0) (- (div (- a) b)) (div (- a) (- b)))))
@@ -58,6 +62,10 @@ type Solver struct {
 	Log    io.Writer // optional transcript
 	Errors int
 	Dead   bool // process was killed; caller must Restart and rebuild its scope
+	// Abstract: print symbolic*symbolic products and divisions by a symbolic divisor as
+	// uninterpreted functions (with sign/magnitude lemmas): a sound over-approximation
+	// that keeps every query in UFLIA.
+	Abstract bool
 }
 
 func NewSolver(ctx *Ctx, cmd []string) (*Solver, error) {
@@ -167,15 +175,50 @@ func (s *Solver) ref(t *Term) string {
 		s.byLvl[s.level] = append(s.byLvl[s.level], t)
 		return t.Name
 	}
+	op := t.Op
+	uf := false
+	if s.Abstract && t.Sort == SInt {
+		switch op {
+		case "*":
+			if !t.Args[0].IsConst() && !t.Args[1].IsConst() {
+				op, uf = "umul", true
+			}
+		case "tdiv", "div", "mod":
+			if !t.Args[1].IsConst() {
+				op, uf = "u"+op, true
+			}
+		}
+	}
 	var sb strings.Builder
 	sb.WriteByte('(')
-	sb.WriteString(t.Op)
+	sb.WriteString(op)
+	var refs []string
 	for _, a := range t.Args {
+		r := s.ref(a)
+		refs = append(refs, r)
 		sb.WriteByte(' ')
-		sb.WriteString(s.ref(a))
+		sb.WriteString(r)
 	}
 	sb.WriteByte(')')
 	expr := sb.String()
+	if uf {
+		name := fmt.Sprintf("t!%d", t.ID)
+		s.send(fmt.Sprintf("(define-fun %s () %s %s)", name, t.Sort, expr))
+		a, b := refs[0], refs[1]
+		switch op {
+		case "umul":
+			s.send(fmt.Sprintf("(assert (and (=> (and (>= %s 0) (>= %s 0)) (>= %s 0)) (=> (= %s 0) (= %s 0)) (=> (= %s 0) (= %s 0)) (=> (and (>= %s 1) (>= %s 0)) (>= %s %s)) (=> (and (>= %s 1) (>= %s 0)) (>= %s %s)) (=> (= %s 1) (= %s %s)) (=> (= %s 1) (= %s %s))))",
+				a, b, name, a, name, b, name, a, b, name, b, b, a, name, a, a, name, b, b, name, a))
+		case "utdiv", "udiv":
+			s.send(fmt.Sprintf("(assert (and (=> (and (>= %s 0) (> %s 0)) (and (>= %s 0) (<= %s %s))) (=> (and (>= %s 0) (> %s %s)) (= %s 0)) (=> (= %s 1) (= %s %s)) (=> (and (> %s 0) (= %s %s)) (= %s 1))))",
+				a, b, name, name, a, a, b, a, name, b, name, a, a, a, b, name))
+		case "umod":
+			s.send(fmt.Sprintf("(assert (=> (> %s 0) (and (>= %s 0) (< %s %s))))", b, name, name, b))
+		}
+		s.named[t] = name
+		s.byLvl[s.level] = append(s.byLvl[s.level], t)
+		return name
+	}
 	if t.size >= 6 {
 		s.seq++
 		name := fmt.Sprintf("t!%d", t.ID)
